@@ -39,3 +39,25 @@ Example C19_runs :
    map (filter_write Nat.add (fun p => Nat.odd p) (fun p => 100) 5 (fun p => p)) (seq 0 6))
   = ([14;10;14;12], [11;14;13;1;4;3], [0;101;2;103;4;5]).
 Proof. vm_compute. reflexivity. Qed.
+
+(** * Tie to the source by translation (lib/cxx2v.py, re-run on every check): the flat index that each of the
+    ten index-tensor overloads of operator() in tensor/BlockIndexing.h (five forms, non-const and const copies)
+    stores in tmp_it is the corresponding entry of the model's index lists; the compile-time range is
+    normalised against the column count in A(it, fseq) and the row count in A(fseq, it) *)
+From Coq Require Import ZArith.
+From FastorV Require Import Gen.GeneratedViews Proofs.GenViewsEq.
+Theorem C19_source_flat_indices :
+  forall a b num f s ncols i j : Z,
+  (gen_bidx_it_it_nonconst a b num f s ncols i j = a * ncols + b /\ gen_bidx_it_it_const a b num f s ncols i j = a * ncols + b)%Z /\
+  (gen_bidx_it_num_nonconst a b num f s ncols i j = a * ncols + num /\ gen_bidx_it_num_const a b num f s ncols i j = a * ncols + num)%Z /\
+  (gen_bidx_num_it_nonconst a b num f s ncols i j = num * ncols + a /\ gen_bidx_num_it_const a b num f s ncols i j = num * ncols + a)%Z /\
+  (gen_bidx_it_fseq_nonconst a b num f s ncols i j = a * ncols + (f + j * s) /\ gen_bidx_it_fseq_const a b num f s ncols i j = a * ncols + (f + j * s))%Z /\
+  (gen_bidx_fseq_it_nonconst a b num f s ncols i j = (f + i * s) * ncols + b /\ gen_bidx_fseq_it_const a b num f s ncols i j = (f + i * s) * ncols + b)%Z /\
+  (gen_bidx_it_fseq_axis_nonconst = 2 /\ gen_bidx_it_fseq_axis_const = 2 /\ gen_bidx_fseq_it_axis_nonconst = 1 /\ gen_bidx_fseq_it_axis_const = 1).
+Proof. exact gen_bidx_eq. Qed.
+Print Assumptions C19_source_flat_indices.
+
+Theorem C19_idx2_entries :
+  forall ncols it0 it1 i j, i < length it0 -> j < length it1 ->
+    nth (i * length it1 + j) (idx2 ncols it0 it1) 0 = nth i it0 0 * ncols + nth j it1 0.
+Proof. exact idx2_nth. Qed.
